@@ -48,9 +48,10 @@ class Instance:
     """an object of a repository class about which nothing but its class is known (a message handed to a writer,
     ...); isinstance() and hooked method calls work on it"""
 
-    def __init__(self, ci, label=None):
+    def __init__(self, ci, label=None, attrs=None):
         self.ci = ci
         self.label = label or ci.name
+        self.attrs = attrs          # {attribute: value} when the object's state is modelled, else None
 
     def __repr__(self):
         return "<%s object>" % self.label
@@ -329,6 +330,8 @@ class Ev:
             raise Unknown(key)
         if isinstance(base, dict) and n.attr in base:
             return base[n.attr]
+        if isinstance(base, Instance) and base.attrs is not None and n.attr in base.attrs:
+            return base.attrs[n.attr]
         raise Unknown(key)
 
     def ev_BinOp(self, n):
@@ -573,6 +576,22 @@ class Ev:
                 if len(args) == 3:
                     raise Unknown("getattr default for an unmodelled attribute %s" % args[1])
                 raise
+        if fname in ("str", "repr") and len(n.args) == 1 and not kw and isinstance(n.args[0], ast.Name) and n.args[0].id == "self" \
+                and "self" not in self.env and self.self_cls is not None:
+            for dn in (("__str__", "__repr__") if fname == "str" else ("__repr__",)):
+                c_, m_ = self.repo.find_method(self.self_cls, dn)
+                if m_ is not None:
+                    return self.call_func(m_, c_.mod, [("self", "<self>")], self_cls=self.self_cls)
+            raise Unknown("%s(self) without %s" % (fname, "__str__"))
+        if fname in ("str", "repr") and len(args) == 1 and not kw and isinstance(args[0], Instance) and args[0].attrs is not None:
+            # str() / repr() of a modelled object: its class's own __str__ / __repr__ evaluated on its attributes
+            for dn in (("__str__", "__repr__") if fname == "str" else ("__repr__",)):
+                c_, m_ = self.repo.find_method(args[0].ci, dn)
+                if m_ is not None:
+                    sub = self._mk(c_.mod, {"self." + k_: v_ for k_, v_ in args[0].attrs.items()}, args[0].ci, self.depth + 1)
+                    r_ = sub.run_block(m_.body)
+                    return r_[1] if isinstance(r_, tuple) else None
+            raise Unknown("%s() of an object without %s" % (fname, "__str__"))
         if fname == "type" and len(args) == 1 and not kw:
             tn = type(args[0]).__name__
             if tn in _TYPES or tn == "NoneType":
@@ -878,7 +897,12 @@ class Ev:
             f = _BIN.get(type(st.op))
             key = ast.unparse(st.target)
             cur = self.ev(st.target)
-            v = f(cur, self.ev(st.value))
+            try:
+                v = f(cur, self.ev(st.value))
+            except TypeError:
+                raise Raised("TypeError", st)
+            except ZeroDivisionError:
+                raise Raised("ZeroDivisionError", st)
             if isinstance(st.target, ast.Name):
                 self.env[st.target.id] = v
             else:
